@@ -34,6 +34,8 @@ FAMILY = {
     'long_rule': "start: " + " | ".join(f"'k{i}' 'v{i}'" for i in range(14)) + " ;\n",
     'many_keywords': ''.join('@@keyword :: ' + ' '.join(f'kw{i:02d}' for i in range(j, j + 6)) + '\n' for j in range(0, 30, 6)) + "@@keyword :: 'a b' zz\nstart: {word}+ $ ;\n@name\nword: /[a-z]+[0-9]*/ ;\n",
     'wide_tokens': "start: '你好' 'a' | 'a' '＄' $ | {'ü' | /[一-龥]+/}+ ['＄x'] ;\n",
+    'falsy_constants': "start: 'a' `0` | 'b' `` | 'c' `False` | 'd' `0.0` 'e' `''` ;\n",
+    'two_decorators': "start: {r}+ q $ ;\n@nomemo\n@name\nr: /[a-z]/ ;\n@name\n@nomemo\nq: /[0-9]/ ;\n",
     'params_null': "start: r q ;\nr(A, sep=None, k=2): 'a' ;\nq[B, flag=True]: 'b' | () ;\n",
     'params_based': "start: d | b ;\nb(X): x='a' ;\nd(S, 2) < b: y='b' ;\n",
     'whitespace_none': "@@whitespace :: None\nstart: 'a' 'b' {/ /} $ ;\n",
